@@ -389,6 +389,7 @@ type Renamed interface {
 }
 """
 case("fixed-lower", "adv/fixed", ["Lower"], skip=True)
+case("fixed-lower-ensure", "adv/fixed", ["Lower"])
 case("fixed-lower-stub", "adv/fixed", ["Lower"], skip=True, stub=True, resets=True, pkg="mocks")
 case("fixed-numbertwo", "adv/fixed", ["NumberTwo"])
 case("fixed-bodynames", "adv/fixed", ["BodyNames"], stub=True)
@@ -574,8 +575,24 @@ type Repo[K ~string, V any] interface {
 type UserRepo = Repo[UserID, User]
 
 type Defined Repo[UserID, *User]
+
+type Hasher interface {
+	comparable
+	Hash() uint64
+}
+
+type Set[T Hasher] interface{ Add(t T) bool }
+
+type Cache[K comparable, V any] interface {
+	Get(k K) (V, bool)
+	Put(k K, v V)
+}
+
+type Key interface{ comparable }
+
+type Keyed[K Key] interface{ Find(k K) int }
 """
-for n in ["Floats", "Texts", "Index", "Reals", "UserRepo", "Defined", "Repo"]:
+for n in ["Floats", "Texts", "Index", "Reals", "UserRepo", "Defined", "Repo", "Set", "Cache", "Keyed"]:
     case("generic2-" + n, "adv/generic2", [n])
     case("generic2-%s-m" % n, "adv/generic2", [n], pkg="mocks", stub=True)
 
